@@ -280,7 +280,6 @@ def step (_ : Unit) (op impl : String) : Unit × String × String :=
              | none => "viol:unparseable-output")
           else if lookHex m "mk" != some [] then "viol:unsealed-has-key" else "ok"
         if !sealed then (s!"ok pl={hexEncode payload} mk=- enc={hexEncode payload}", v)
-        else if mode == "k" then ("-", v)
         else
           match lookHex m "ein", lookHex m "eout", aesBlockAndIV keys with
           | some ein, some eout, .ok (_, iv16) =>
